@@ -284,10 +284,10 @@ prop(
         "seeded search: a clean batch is evidence, not proof",
     ],
     [
-        Leg("std", "release", "chacha_stream", "C02", 120000, 4000000),
-        Leg("std", "checked", "chacha_stream", "C02", 120000, 4000000),
-        Leg("std", "dev", "chacha_stream", "C02", 8000, 200000),
-        Leg("portable", "checked", "chacha_stream", "C02", 20000, 400000, tiers=("thorough",)),
+        Leg("std", "release", "chacha_stream", "C02", 1000000, 20000000),
+        Leg("std", "checked", "chacha_stream", "C02", 1000000, 20000000),
+        Leg("std", "dev", "chacha_stream", "C02", 50000, 1000000),
+        Leg("portable", "checked", "chacha_stream", "C02", 20000, 2000000, tiers=("thorough",)),
     ],
     [REAL, STUB],
 )
@@ -305,10 +305,10 @@ prop(
         "seeded search: a clean batch is evidence, not proof",
     ],
     [
-        Leg("std", "release", "chacha_stream", "C11", 120000, 4000000),
-        Leg("std", "checked", "chacha_stream", "C11", 120000, 4000000),
-        Leg("std", "dev", "chacha_stream", "C11", 8000, 200000),
-        Leg("portable", "checked", "chacha_stream", "C11", 20000, 400000, tiers=("thorough",)),
+        Leg("std", "release", "chacha_stream", "C11", 1000000, 20000000),
+        Leg("std", "checked", "chacha_stream", "C11", 1000000, 20000000),
+        Leg("std", "dev", "chacha_stream", "C11", 50000, 1000000),
+        Leg("portable", "checked", "chacha_stream", "C11", 20000, 2000000, tiers=("thorough",)),
     ],
     [REAL, STUB],
 )
@@ -330,9 +330,9 @@ prop(
         "seeded search: a clean batch is evidence, not proof",
     ],
     [
-        Leg("std", "release", "chacha_block", "C14", 150000, 3000000, max_ops=32),
-        Leg("std", "checked", "chacha_block", "C14", 150000, 3000000, max_ops=32),
-        Leg("std", "dev", "chacha_block", "C14", 10000, 200000, max_ops=32),
+        Leg("std", "release", "chacha_block", "C14", 1000000, 20000000, max_ops=32),
+        Leg("std", "checked", "chacha_block", "C14", 1000000, 20000000, max_ops=32),
+        Leg("std", "dev", "chacha_block", "C14", 50000, 1000000, max_ops=32),
     ],
     [REAL, STUB],
     cross=[Cross("chacha_block", "C14", "checked", 40000, 400000, ["portable", "nostd-sse2"], ALL_FIXED, max_ops=32)],
@@ -347,9 +347,9 @@ prop(
     "distinct_nontrivial = distinct abstract states (op kind, parameter, counter classes, derivation kind, expected predicate values)",
     ["the stream-equality oracle is the statement itself: key equal and d[1..4] (32-bit) / d[2..4] (64-bit) equal", "seeded search: a clean batch is evidence, not proof"],
     [
-        Leg("std", "release", "chacha_block", "C15", 150000, 3000000, max_ops=32),
-        Leg("std", "checked", "chacha_block", "C15", 150000, 3000000, max_ops=32),
-        Leg("std", "dev", "chacha_block", "C15", 10000, 200000, max_ops=32),
+        Leg("std", "release", "chacha_block", "C15", 1000000, 20000000, max_ops=32),
+        Leg("std", "checked", "chacha_block", "C15", 1000000, 20000000, max_ops=32),
+        Leg("std", "dev", "chacha_block", "C15", 50000, 1000000, max_ops=32),
         Leg("portable", "checked", "chacha_block", "C15", 20000, 300000, max_ops=32, tiers=("thorough",)),
     ],
     [REAL, STUB],
@@ -368,10 +368,10 @@ prop(
         "seeded search: a clean batch is evidence, not proof",
     ],
     [
-        Leg("std", "release", "hash_stream", "C08", 150000, 3000000, max_ops=30),
-        Leg("std", "checked", "hash_stream", "C08", 150000, 3000000, max_ops=30),
-        Leg("std", "dev", "hash_stream", "C08", 4000, 60000, max_ops=30),
-        Leg("portable", "checked", "hash_stream", "C08", 20000, 300000, max_ops=30, tiers=("thorough",)),
+        Leg("std", "release", "hash_stream", "C08", 600000, 12000000, max_ops=30),
+        Leg("std", "checked", "hash_stream", "C08", 600000, 12000000, max_ops=30),
+        Leg("std", "dev", "hash_stream", "C08", 8000, 150000, max_ops=30),
+        Leg("portable", "checked", "hash_stream", "C08", 20000, 1000000, max_ops=30, tiers=("thorough",)),
     ],
     [REAL, STUB],
 )
@@ -426,7 +426,7 @@ prop(
         Leg("std", "checked", "mem", "C16enum", 0, -1, max_ops=192, sharded=True),
         Leg("std", "release", "mem", "C16", 60000, 1500000, max_ops=40, sharded=True),
         Leg("std", "checked", "mem", "C16", 20000, 600000, max_ops=40, sharded=True),
-        Leg("portable", "release", "mem", "C16enum", 0, -1, max_ops=192, sharded=True),
+        Leg("portable", "release", "mem", "C16enum", -1, -1, max_ops=192, sharded=True),
         Leg("portable", "release", "mem", "C16", 0, 300000, max_ops=40, sharded=True),
     ],
     [REAL, STUB],
@@ -682,8 +682,9 @@ def miri_native():
     return os.path.join(VERIF, "target", tag + "-native", "debug", "mirithreads")
 
 
-def miri_run(workload, threads, steps, seed_lo, seed_hi, rate, expected):
-    """run the workload under Miri for scheduler seeds [seed_lo, seed_hi); returns (rc, output)"""
+def miri_run(base, nw, table, seed_lo, seed_hi, rate, idx=None):
+    """run the thread workload under Miri for scheduler seeds [seed_lo, seed_hi); returns (rc, output).
+    Each seed is a fresh interpreter (a cold process); the seed also selects which of the `nw` workloads runs."""
     bdir, mpath, tag = miri_dirs()
     env = dict(os.environ)
     env["RUSTFLAGS"] = MIRI_RUSTFLAGS
@@ -693,7 +694,9 @@ def miri_run(workload, threads, steps, seed_lo, seed_hi, rate, expected):
         env["MIRIFLAGS"] = "-Zmiri-seed=%d -Zmiri-preemption-rate=%s" % (seed_lo, rate)
     else:
         env["MIRIFLAGS"] = "-Zmiri-many-seeds=%d..%d -Zmiri-preemption-rate=%s" % (seed_lo, seed_hi, rate)
-    cmd = ["cargo", "+nightly", "miri", "run", "--offline", "--quiet", "--manifest-path", mpath, "--", "run", str(workload), str(threads), str(steps), expected]
+    cmd = ["cargo", "+nightly", "miri", "run", "--offline", "--quiet", "--manifest-path", mpath, "--", "run", str(base), str(nw), table]
+    if idx is not None:
+        cmd.append(str(idx))
     p = subprocess.run(cmd, env=env, cwd=bdir, stdout=subprocess.PIPE, stderr=subprocess.STDOUT, text=True)
     return p.returncode, p.stdout
 
@@ -712,33 +715,36 @@ def classify_miri(out):
     return "abnormal exit"
 
 
+NW = 30
+
+
 def run_miri_layer(pid, tier, sd, replay_dir, results, violations, known, others):
     """S7b: threads from a cold process; every thread switch decided by Miri's seeded scheduler."""
+    import re
     native = miri_native()
+    base = (sd * 1000003) & 0xFFFFFFFF
+    table = subprocess.run([native, "expected", str(base), str(NW)], stdout=subprocess.PIPE, text=True).stdout.strip()
+    plans = subprocess.run([native, "plan", str(base), str(NW)], stdout=subprocess.PIPE, text=True).stdout.strip().splitlines()
     if tier == "quick":
-        plan = [(0, 3, 3, 8, "0.1"), (1, 2, 4, 6, "0.3"), (2, 4, 2, 6, "0.05")]
+        batches = [(32, "0.1")]
     else:
-        plan = []
-        for w in range(24):
-            plan.append((w, 2 + w % 3, 2 + (w // 3) % 3, 16, ["0.01", "0.1", "0.4"][w % 3]))
+        batches = [(256, "0.01"), (256, "0.1"), (256, "0.4")]
     t0 = time.time()
     total = 0
-    for (w, threads, steps, nseeds, rate) in plan:
-        workload = (sd * 1000003 + w) & 0xFFFFFFFF
-        exp = subprocess.run([native, "expected", str(workload), str(threads), str(steps)], stdout=subprocess.PIPE, text=True).stdout.strip()
-        planned = subprocess.run([native, "plan", str(workload), str(threads), str(steps)], stdout=subprocess.PIPE, text=True).stdout.strip().splitlines()
-        lo = (sd * 7919 + w * 101) % 100000
-        rc, out = miri_run(workload, threads, steps, lo, lo + nseeds, rate, exp)
+    for bi, (nseeds, rate) in enumerate(batches):
+        lo = (sd * 7919 + bi * 1009) % 100000
+        rc, out = miri_run(base, NW, table, lo, lo + nseeds, rate)
         total += nseeds
-        rec = dict(workload_seed=workload, threads=threads, steps_per_thread=steps, miri_seeds=[lo, lo + nseeds], preemption_rate=rate, plan=planned, ok=(rc == 0))
-        results.append(rec)
-        log("[%s] miri workload %d: %d threads x %d steps, scheduler seeds %d..%d rate %s: %s" % (pid, workload, threads, steps, lo, lo + nseeds, rate, "ok" if rc == 0 else "FAILED"))
+        picked = {}
+        for m in re.finditer(r"WORKLOAD (\d+) threads=(\d+) first=(\w+)", out):
+            picked[m.group(3)] = picked.get(m.group(3), 0) + 1
+        results.append(dict(base_seed=base, workloads=NW, miri_seeds=[lo, lo + nseeds], preemption_rate=rate, first_call_kinds_raced=picked, ok=(rc == 0)))
+        log("[%s] miri: scheduler seeds %d..%d rate %s: %s; first-call kinds raced: %s" % (pid, lo, lo + nseeds, rate, "ok" if rc == 0 else "FAILED", picked))
         if rc == 0:
             continue
-        # find the failing seed(s) one by one (each is a fresh interpreter = cold process)
         failing = None
         for s_ in range(lo, lo + nseeds):
-            rc1, out1 = miri_run(workload, threads, steps, s_, s_ + 1, rate, exp)
+            rc1, out1 = miri_run(base, NW, table, s_, s_ + 1, rate)
             if rc1 != 0:
                 failing = (s_, out1)
                 break
@@ -746,25 +752,15 @@ def run_miri_layer(pid, tier, sd, replay_dir, results, violations, known, others
             raise HarnessError("Miri failure did not reproduce with a single seed:\n" + out[-2000:])
         s_, out1 = failing
         what = classify_miri(out1)
-        # minimise: fewer threads / fewer steps under the same scheduler seed (bounded attempts)
-        best = (threads, steps, exp)
-        for (t2, st2) in [(2, 1), (2, 2), (threads, 1), (2, steps), (threads, 2)]:
-            if t2 > threads or st2 > steps or (t2, st2) == (threads, steps):
-                continue
-            e2 = subprocess.run([native, "expected", str(workload), str(t2), str(st2)], stdout=subprocess.PIPE, text=True).stdout.strip()
-            rc2, out2 = miri_run(workload, t2, st2, s_, s_ + 1, rate, e2)
-            if rc2 != 0 and classify_miri(out2) == what:
-                best = (t2, st2, e2)
-                out1 = out2
-                break
+        m = re.search(r"WORKLOAD (\d+)", out1)
+        widx = int(m.group(1)) if m else -1
         props = [pid] if what in ("data race", "deadlock", "result differs from the sequential expectation", "panic") else ["C16"]
         sig = "threads from a cold process:%s" % what
         tail = "\n".join(l for l in out1.splitlines() if l.strip())[-1500:]
-        f = dict(kind="miri", workload_seed=workload, threads=best[0], steps=best[1], miri_seed=s_, preemption_rate=rate, expected=best[2],
-                 ops=subprocess.run([native, "plan", str(workload), str(best[0]), str(best[1])], stdout=subprocess.PIPE, text=True).stdout.strip().splitlines(),
-                 minimised_from=threads * steps,
-                 violation=dict(properties=props, invariant="T1", signature=sig, at_op=0, detail="Miri scheduler seed %d, preemption rate %s: %s\n%s" % (s_, rate, what, tail)))
-        path = os.path.join(replay_dir, "%s-miri-%d-%d.json" % (pid, workload, s_))
+        f = dict(kind="miri", base_seed=base, workloads=NW, workload_index=widx, miri_seed=s_, preemption_rate=rate, table=table,
+                 ops=[plans[widx]] if 0 <= widx < len(plans) else [], minimised_from=1,
+                 violation=dict(properties=props, invariant="T1", signature=sig, at_op=0, detail="Miri scheduler seed %d, preemption rate %s, workload %d: %s\n%s" % (s_, rate, widx, what, tail)))
+        path = os.path.join(replay_dir, "%s-miri-%d-%d.json" % (pid, base, s_))
         json.dump(f, open(path, "w"))
         f["replay"] = path
         if pid not in props:
@@ -775,7 +771,7 @@ def run_miri_layer(pid, tier, sd, replay_dir, results, violations, known, others
             known.append((kf, f))
         else:
             violations.append(f)
-        break  # one reproduced, minimised violation is enough; Miri is slow
+        break  # one reproduced violation is enough; Miri is slow
     return total, time.time() - t0
 
 
@@ -859,12 +855,15 @@ def run_cross(pid, cross, tier, sd, replay_dir, absorb, violations, known):
 
         def differs(k):
             ds = []
+            ref_trace = None
             for b in ("std", hb):
                 rc, out, err = run_worker(bins[b], ["trace", "--scenario", cross.scenario, "--mix", cross.mix, "--seed", sd, "--start", r, "--max-ops", k, "--profile", cross.profile, "--host-build", b])
                 if out is None:
                     raise HarnessError("trace failed on %s" % b)
                 ds.append(out["digest"])
-            return ds[0] != ds[1], out
+                if ref_trace is None:
+                    ref_trace = out  # the reference build's operation list is the replay trace
+            return ds[0] != ds[1], ref_trace
 
         lo, hi = 0, cross.max_ops
         ok, tr = differs(hi)
@@ -956,8 +955,27 @@ def finish(pid, tier, sd, spec, wall, total_runs, total_ops, states, counters, n
 
 def replay(pid, path):
     j = json.load(open(path))
+    if j.get("kind") == "batch":
+        meta = j.get("meta", {})
+        binary = build(meta.get("host_build", "std"), meta.get("profile", "release"))
+        b = j["batch"]
+        rc, out, err = run_worker(binary, ["run", "--scenario", j["scenario"], "--mix", j["mix"], "--seed", j["verif_seed"], "--start", b["start"], "--runs", b["runs"], "--threads", 1, "--max-ops", b["max_ops"]])
+        if out is None:
+            print("HARNESS-ERROR: batch replay failed rc=%s" % rc)
+            return 2
+        same = [f for f in out["found"] if f["violation"]["invariant"] == j["violation"]["invariant"] and pid in f["violation"]["properties"]]
+        if same:
+            kf = open_finding_for(pid, same[0]["violation"]["signature"])
+            if kf:
+                print("KNOWN-FINDING: property=%s %s" % (pid, kf.get("what")))
+                return 0
+            print("VIOLATION property=%s replay=%s" % (pid, path))
+            print("  (batch prefix of %d runs) %s" % (b["runs"], same[0]["violation"]["detail"]))
+            return 1
+        print("OK replay: the batch prefix passes on this tree")
+        return 0
     if j.get("kind") == "miri":
-        rc, out = miri_run(j["workload_seed"], j["threads"], j["steps"], j["miri_seed"], j["miri_seed"] + 1, j["preemption_rate"], j["expected"])
+        rc, out = miri_run(j["base_seed"], j["workloads"], j["table"], j["miri_seed"], j["miri_seed"] + 1, j["preemption_rate"])
         if rc != 0:
             sig = j["violation"]["signature"]
             if pid not in j["violation"]["properties"]:
@@ -1069,6 +1087,55 @@ def setup():
     return 0
 
 
+def selftest_determinism():
+    """Every scenario: 2000 seeds, twice, in separate processes, at 1 and at 16 workers, in two build profiles;
+    the per-seed event-log digests must be identical. Miri: 4 scheduler seeds run twice must agree on pass/fail."""
+    tmp = os.path.join(VERIF, "target", "tmp")
+    os.makedirs(tmp, exist_ok=True)
+    scen = [("chacha_stream", "C02", 48), ("chacha_stream", "C11", 48), ("chacha_block", "C14", 32), ("chacha_block", "C15", 32), ("hash_stream", "C08", 30),
+            ("hash_stream@hosts", "C03", 30), ("chacha_stream@hosts", "C02", 48), ("mem", "C16", 40), ("mem", "C16enum", 192), ("counters", "C17", 16), ("interleave", "C18", 60)]
+    bad = 0
+    total = 0
+    for profile in ("release", "checked"):
+        binary = build("std", profile)
+        for (sc, mix, mo) in scen:
+            ref = None
+            for (threads, rep) in ((1, 0), (16, 0), (16, 1), (5, 0)):
+                df = os.path.join(tmp, "det-%d.txt" % os.getpid())
+                rc, out, err = run_worker(binary, ["run", "--scenario", sc, "--mix", mix, "--seed", seed(), "--runs", 2000, "--threads", threads, "--max-ops", mo, "--digests", df, "--recheck-every", 7])
+                if out is None:
+                    log(err[-2000:])
+                    print("HARNESS-ERROR: worker failed in determinism self-test (%s)" % sc)
+                    return 2
+                d = read_digests(df)
+                os.unlink(df)
+                total += len(d)
+                if out["nondeterministic_seeds"]:
+                    bad += 1
+                    print("NONDETERMINISTIC (in-process recheck): %s/%s %s" % (sc, mix, out["nondeterministic_seeds"][:3]))
+                if ref is None:
+                    ref = d
+                elif d != ref:
+                    diff = [r for r in ref if d.get(r) != ref[r]]
+                    bad += 1
+                    print("NONDETERMINISTIC: %s/%s/%s at %d workers: %d of %d seeds differ, first run index %s" % (sc, mix, profile, threads, len(diff), len(ref), diff[:3]))
+            log("[determinism] %s/%s/%s: 4 executions x 2000 seeds compared" % (sc, mix, profile))
+    native = miri_native()
+    exp = subprocess.run([native, "expected", "7", "15"], stdout=subprocess.PIPE, text=True).stdout.strip()
+    r1 = miri_run(7, 15, exp, 100, 104, "0.2")
+    r2 = miri_run(7, 15, exp, 100, 104, "0.2")
+    w1 = sorted(l for l in r1[1].splitlines() if l.startswith("WORKLOAD"))
+    w2 = sorted(l for l in r2[1].splitlines() if l.startswith("WORKLOAD"))
+    if w1 != w2:
+        bad += 1
+        print("NONDETERMINISTIC: Miri seeds 100..104 selected different workloads in two executions")
+    if r1[0] != r2[0]:
+        bad += 1
+        print("NONDETERMINISTIC: Miri seeds 100..104 pass/fail differs between two executions")
+    print("determinism self-test: %d digests compared, %d divergences" % (total, bad))
+    return 0 if bad == 0 else 2
+
+
 def main(argv):
     if not argv:
         print(__doc__)
@@ -1076,6 +1143,8 @@ def main(argv):
     try:
         if argv[0] == "setup":
             return setup()
+        if argv[0] == "selftest-determinism":
+            return selftest_determinism()
         pid = argv[0]
         if pid not in PROPS and pid != "any":
             print("unknown property %s (claimed: %s)" % (pid, " ".join(sorted(PROPS))))
